@@ -610,7 +610,7 @@ class PathMatches(Matcher):
             "required number of arguments " "not found"
         )
         if not len(args):
-            return self._path
+            return self._path % ()
         converted_args = []
         for a in args:
             if not isinstance(a, (unicode_type, bytes)):
@@ -646,7 +646,7 @@ class PathMatches(Matcher):
                         # If we can't unescape part of it, we can't
                         # reverse this url.
                         return (None, None)
-                    pieces.append("%s" + unescaped_fragment)
+                    pieces.append("%s" + unescaped_fragment.replace("%", "%%"))
             else:
                 try:
                     unescaped_fragment = re_unescape(fragment)
@@ -654,7 +654,7 @@ class PathMatches(Matcher):
                     # If we can't unescape part of it, we can't
                     # reverse this url.
                     return (None, None)
-                pieces.append(unescaped_fragment)
+                pieces.append(unescaped_fragment.replace("%", "%%"))
 
         return "".join(pieces), self.regex.groups
 
